@@ -446,12 +446,14 @@ def execute(plan, seed=0):
                 for bi in range(len(model[a].bins)):
                     try:
                         ni = B.numitems(real[a], bi)
-                    except NotImplementedError:
+                    except Exception as e:
+                        # the sums-only manager cannot count items; HOW it refuses (which error) is not C16's business
                         if manager == "contents":
-                            res.violate("numitems-wrong", step=step, op=op, bin=bi, why="refused")
+                            res.violate("numitems-wrong", step=step, op=op, bin=bi, why="refused", exception=type(e).__name__)
                         continue
                     if manager == "sums":
-                        res.violate("sums-manager-counted-items", step=step, op=op, bin=bi, got=canon(ni))
+                        # a sums-only manager that answers anyway concerns property C19, not C16: recorded, not judged here
+                        res.note("sums_manager_counted_items")
                     elif ni != len(model[a].bins[bi]):
                         res.violate("numitems-wrong", step=step, op=op, bin=bi, got=canon(ni), want=len(model[a].bins[bi]))
                 if core.jdump(canon(real[a])) != snap:
